@@ -765,7 +765,7 @@ func init() {
 		},
 		Real:        append([]string{"http_proxy_errors.go status mapping, martian writeErrorResponse / connect error paths, dialvia, net/http Transport error paths, crypto/tls verification"}, realForwarder...),
 		Stub:        stubCommon,
-		Rule:        "request kind (plain, via upstream proxy, CONNECT direct / via HTTP upstream / via HTTPS upstream, MITM-inner) x fault (dial refused, black-holed until DialTimeout/ConnectTimeout on the fake clock, RST at accept, TLS garbage / close mid-handshake / expired / wrong-name / untrusted certificate, upstream proxy rejecting CONNECT with 3xx-5xx with or without body, FIN or RST after k bytes of the reply for k drawn over the whole reply, malformed status line / header / chunk size, Content-Length too long / too short) x reply framing x healthy exchanges before and after on the same connection; distinct = shape x (k mod 512). Oracle: strict client parser; complete X-Forwarder-Error response with mapped status, or closed connection after partial relay; never a complete-looking but truncated/altered/mixed response; fresh-connection probe afterwards; worker process death = crash.",
+		Rule:        "request kind (plain, via upstream proxy, CONNECT direct / via HTTP upstream / via HTTPS upstream, MITM-inner) x fault (dial refused, black-holed until DialTimeout/ConnectTimeout on the fake clock, RST at accept, TLS garbage / close mid-handshake / expired / wrong-name / untrusted certificate, upstream proxy rejecting CONNECT with 3xx-5xx with or without body, FIN or RST after k bytes of the reply for k drawn over the whole reply, malformed status line / header / chunk size, Content-Length too long / too short) x reply framing x healthy exchanges before and after on the same connection; distinct = shape x (k mod 512). Oracle: strict client parser; complete X-Forwarder-Error response with mapped status, or closed connection after partial relay; never a complete-looking but truncated/altered/mixed response; fresh-connection probe afterwards; worker process death = crash. Later additions: MITM behind an upstream proxy, terminate-TLS CONNECT, the http.Handler front end (TestingHTTPHandler) in a fifth of the plain / upstream runs.",
 		Assumptions: []string{"status is checked strictly only for refused connect (502), black-holed connect (504), certificate/TLS-garbage failures (502) and rejected CONNECT (upstream's status); any 5xx is accepted elsewhere", "close-delimited replies are excluded from the truncation rule (truncation is invisible there)"},
 	})
 }
